@@ -1,6 +1,7 @@
 import Q1t.Proofs.OpenQasmComplex
 import Q1t.Proofs.OpenQasmCtrl2
 import Q1t.Proofs.OpenQasmCtrl3
+import Q1t.Proofs.OpenQasmConstAbs
 /-! C11: the complex / real model also satisfies `LawfulAngle2` (quarter angles, sums, `±π/4`). -/
 noncomputable section
 namespace Q1t.OpenQasm
@@ -66,5 +67,25 @@ theorem lawfulAngle3Complex : LawfulAngle3 ℂ ℝ where
   on_sin x := by
     show ((Real.sin (-x / (((4 : ℕ) : ℝ) * (10 : ℝ) ^ (0 : ℤ)) / 2) : ℝ) : ℂ) = -((Real.sin (x / 2 / 2 / 2) : ℝ) : ℂ)
     rw [four_eq, show -x / 4 / 2 = -(x / 2 / 2 / 2) by ring, Real.sin_neg]; push_cast; rfl
+
+theorem lawfulAnglePiComplex : LawfulAnglePi ℂ ℝ where
+  cos_pi := by
+    show ((Real.cos Real.pi : ℝ) : ℂ) = -1
+    rw [Real.cos_pi]; push_cast; rfl
+  sin_pi := by
+    show ((Real.sin Real.pi : ℝ) : ℂ) = 0
+    rw [Real.sin_pi]; rfl
+  cos_half_pi := by
+    show ((Real.cos (Real.pi / 2) : ℝ) : ℂ) = 0
+    rw [Real.cos_pi_div_two]; rfl
+  sin_half_pi := by
+    show ((Real.sin (Real.pi / 2) : ℝ) : ℂ) = 1
+    rw [Real.sin_pi_div_two]; rfl
+  cos_npi_two := by
+    show ((Real.cos (-Real.pi / (((2 : ℕ) : ℝ) * (10 : ℝ) ^ (0 : ℤ))) : ℝ) : ℂ) = 0
+    rw [two_eq, neg_div, Real.cos_neg, Real.cos_pi_div_two]; rfl
+  sin_npi_two := by
+    show ((Real.sin (-Real.pi / (((2 : ℕ) : ℝ) * (10 : ℝ) ^ (0 : ℤ))) : ℝ) : ℂ) = -1
+    rw [two_eq, neg_div, Real.sin_neg, Real.sin_pi_div_two]; push_cast; rfl
 
 end Q1t.OpenQasm
